@@ -3,7 +3,7 @@
    earlier-or-equal one.  Proof: by_section is a stable sort by section rank; a stable sort is a
    sequence of adjacent swaps (x, y) -> (y, x) with rank y < rank x; each such swap preserves the result
    of an accepted run when y does not read what x defines. *)
-From Coq Require Import ZArith List Bool String Lia Arith PeanoNat Sorted.
+From Coq Require Import ZArith NArith List Bool String Ascii Lia Arith PeanoNat Sorted Permutation.
 From Defs Require Import Gen.TypeTables Model.Layout Model.Emit.
 Import ListNotations.
 Open Scope string_scope. Open Scope list_scope. Open Scope Z_scope.
@@ -494,38 +494,353 @@ Proof.
     apply IH; auto. intros a b Ha Hb'. apply Hall; simpl; auto.
 Qed.
 
-(* ------------------------------------------------------------------ _RESERVED_ blocks *)
+(* ------------------------------------------------------------------ _RESERVED_ blocks
+   The combined file carries ONE _RESERVED_ block, at the place of the first one, listing the ids of all blocks
+   (parse_text since bcffd4b).  Re-reading it defines the same placeholders, but all at that one place: the parsed
+   state is the same up to the position of the placeholder entries in message_ids / message_defs. *)
 Definition count_reserved (l : list item) : nat := List.length (filter is_reserved l).
+Definition rmts (ids : list Z) : list (string * Z) := map (fun id => (reserved_name id, id)) ids.
+Definition rdefs (ids : list Z) : list pdef := map (fun id => mkPD (reserved_name id) (Some id) [] 0 8 None) ids.
+Definition rnames (ids : list Z) : list string := map reserved_name ids.
 
-Lemma merge_reserved_none l o : count_reserved l = 0%nat -> merge_reserved l o false = l.
+(* Parser.check_name (not part of Model/Emit.v's step): a declared name starts with a letter; the type names a
+   definition refers to are native names or declared names.  legal_names states it for the source items. *)
+Definition is_letter (c : ascii) : bool :=
+  let n := N_of_ascii c in ((65 <=? n) && (n <=? 90) || (97 <=? n) && (n <=? 122))%N.
+Definition starts_with_letter (s : string) : bool :=
+  match s with String c _ => is_letter c | EmptyString => false end.
+Definition item_idents (i : item) : list string :=
+  match i with
+  | IConst n _ | IStr n _ => [n]
+  | IAlias n t => [n; t]
+  | IStruct n b => n :: body_type_names b
+  | IMsg n _ (Some b) => n :: body_type_names b
+  | IMsg n _ None => [n]
+  | IHid _ _ | IMid _ _ | IReserved _ => []
+  end.
+Definition legal_item (i : item) : bool := forallb starts_with_letter (item_idents i).
+Definition legal_names (l : list item) : bool := forallb legal_item l.
+
+Lemma reserved_not_letter id : starts_with_letter (reserved_name id) = false.
+Proof. reflexivity. Qed.
+
+Lemma letter_not_reserved t A : starts_with_letter t = true -> ~ In t (rnames A).
 Proof.
-  induction l as [|i r IH]; simpl; auto. unfold count_reserved in *. simpl.
-  destruct (is_reserved i); simpl; [discriminate|]. intros H. rewrite IH; auto.
-Qed.
-Lemma merge_reserved_seen l o : count_reserved l = 0%nat -> merge_reserved l o true = l.
-Proof.
-  induction l as [|i r IH]; simpl; auto. unfold count_reserved in *. simpl.
-  destruct (is_reserved i); simpl; [discriminate|]. intros H. rewrite IH; auto.
-Qed.
-Lemma last_reserved_acc l acc : count_reserved l = 0%nat -> fold_left (fun a i => if is_reserved i then Some i else a) l acc = acc.
-Proof.
-  revert acc. induction l as [|i r IH]; simpl; auto. unfold count_reserved in *. simpl.
-  destruct (is_reserved i); simpl; [discriminate|]. intros acc H. apply IH. exact H.
+  intros H Hin. unfold rnames in Hin. apply in_map_iff in Hin. destruct Hin as (id & E & _). subst t.
+  rewrite reserved_not_letter in H. discriminate.
 Qed.
 
-(* at most one _RESERVED_ block in the closure: the merge keeps every item *)
-Lemma merge_reserved_one l : (count_reserved l <= 1)%nat -> merge_reserved l (last_reserved l) false = l.
+(* the user's entries: everything whose name starts with a letter *)
+Definition user_mt (x : string * Z) : bool := starts_with_letter (fst x).
+Definition user_def (d : pdef) : bool := starts_with_letter (pd_name d).
+
+Lemma user_rmts ids : filter user_mt (rmts ids) = [].
+Proof. induction ids as [|i r IH]; simpl; auto. Qed.
+Lemma user_rdefs ids : filter user_def (rdefs ids) = [].
+Proof. induction ids as [|i r IH]; simpl; auto. Qed.
+Lemma names_rdefs ids : map pd_name (rdefs ids) = rnames ids.
+Proof. unfold rdefs, rnames. rewrite map_map. reflexivity. Qed.
+
+(* "the same ids, hashes, sizes and layouts": every component but message_ids / message_defs is identical; those two
+   hold the same entries (a permutation), and the user's own entries - everything except the _RESERVED_nnnnnn
+   placeholders - come in the same order. *)
+Record same_defs (st st' : pstate) : Prop := {
+  sd_consts : ps_consts st = ps_consts st';
+  sd_strs : ps_strs st = ps_strs st';
+  sd_aliases : ps_aliases st = ps_aliases st';
+  sd_hids : ps_hids st = ps_hids st';
+  sd_mids : ps_mids st = ps_mids st';
+  sd_structs : ps_structs st = ps_structs st';
+  sd_mts : Permutation (ps_mts st) (ps_mts st');
+  sd_msgs : Permutation (ps_msgs st) (ps_msgs st');
+  sd_user_mts : filter user_mt (ps_mts st) = filter user_mt (ps_mts st');
+  sd_user_msgs : filter user_def (ps_msgs st) = filter user_def (ps_msgs st') }.
+
+Lemma same_defs_refl st : same_defs st st.
+Proof. constructor; auto. Qed.
+
+(* so: state of the original run; sm: state of the run over the merged list; pend: reserved ids the original run
+   has still to meet (the merged run has them already) *)
+Record RInv (RN : list string) (so sm : pstate) (pend : list Z) : Prop := {
+  ri_consts : ps_consts so = ps_consts sm;
+  ri_strs : ps_strs so = ps_strs sm;
+  ri_aliases : ps_aliases so = ps_aliases sm;
+  ri_hids : ps_hids so = ps_hids sm;
+  ri_mids : ps_mids so = ps_mids sm;
+  ri_structs : ps_structs so = ps_structs sm;
+  ri_find : forall t, ~ In t RN -> find_def t (ps_msgs sm) = find_def t (ps_msgs so);
+  ri_mts : Permutation (ps_mts so ++ rmts pend) (ps_mts sm);
+  ri_msgs : Permutation (ps_msgs so ++ rdefs pend) (ps_msgs sm);
+  ri_user_mts : filter user_mt (ps_mts so) = filter user_mt (ps_mts sm);
+  ri_user_msgs : filter user_def (ps_msgs so) = filter user_def (ps_msgs sm) }.
+
+Lemma RInv_refl RN st : RInv RN st st [].
+Proof. constructor; auto; simpl; rewrite app_nil_r; apply Permutation_refl. Qed.
+
+Lemma RInv_same RN so sm : RInv RN so sm [] -> same_defs so sm.
 Proof.
-  unfold last_reserved. generalize (@None item) as acc.
-  induction l as [|i r IH]; simpl; intros acc H; auto.
-  unfold count_reserved in H. simpl in H. destruct (is_reserved i) eqn:E; simpl in H.
-  - assert (Hr : count_reserved r = 0%nat) by (unfold count_reserved; lia).
-    rewrite (last_reserved_acc _ _ Hr). rewrite merge_reserved_seen by assumption. reflexivity.
-  - rewrite IH; auto.
+  intros [H1 H2 H3 H4 H5 H6 _ H8 H9 H10 H11]. simpl in H8, H9. rewrite app_nil_r in H8, H9.
+  constructor; assumption.
+Qed.
+
+Lemma perm_add {A} (a p m x : list A) : Permutation (a ++ p) m -> Permutation ((a ++ x) ++ p) (m ++ x).
+Proof.
+  intros H. rewrite <- app_assoc. apply Permutation_trans with (a ++ p ++ x).
+  - apply Permutation_app_head. apply Permutation_app_comm.
+  - rewrite app_assoc. apply Permutation_app_tail. exact H.
+Qed.
+
+Lemma find_def_app_congr t a a' x : find_def t a = find_def t a' -> find_def t (a ++ x) = find_def t (a' ++ x).
+Proof.
+  intros H. destruct (find_def t a) as [d|] eqn:E.
+  - rewrite (find_def_app_some _ _ _ _ E). symmetry in H. rewrite (find_def_app_some _ _ _ _ H). reflexivity.
+  - rewrite (find_def_app_none _ _ _ E). symmetry in H. rewrite (find_def_app_none _ _ _ H). reflexivity.
+Qed.
+
+(* both runs add the same messages *)
+Lemma RInv_add RN so sm pend ids ds :
+  RInv RN so sm pend -> RInv RN (apply_delta so (DMsg ids ds)) (apply_delta sm (DMsg ids ds)) pend.
+Proof.
+  intros [H1 H2 H3 H4 H5 H6 H7 H8 H9 H10 H11]. constructor; simpl; auto.
+  - intros t Ht. apply find_def_app_congr. apply H7. exact Ht.
+  - apply perm_add. exact H8.
+  - apply perm_add. exact H9.
+  - rewrite !filter_app, H10. reflexivity.
+  - rewrite !filter_app, H11. reflexivity.
+Qed.
+
+(* the original run meets a later _RESERVED_ block; the merged run has nothing to do *)
+Lemma RInv_reserved A so sm ids pend :
+  incl ids A -> RInv (rnames A) so sm (ids ++ pend) ->
+  RInv (rnames A) (apply_delta so (DMsg (rmts ids) (rdefs ids))) sm pend.
+Proof.
+  intros Hi [H1 H2 H3 H4 H5 H6 H7 H8 H9 H10 H11]. constructor; simpl; auto.
+  - intros t Ht. rewrite (H7 t Ht). symmetry. apply find_def_app_fresh. rewrite names_rdefs. intros Hin. apply Ht.
+    unfold rnames in *. apply in_map_iff in Hin. destruct Hin as (id & E & Hid). apply in_map_iff. exists id. split; auto.
+  - unfold rmts in *. rewrite map_app in H8. rewrite <- app_assoc. exact H8.
+  - unfold rdefs in *. rewrite map_app in H9. rewrite <- app_assoc. exact H9.
+  - rewrite filter_app, user_rmts, app_nil_r. exact H10.
+  - rewrite filter_app, user_rdefs, app_nil_r. exact H11.
+Qed.
+
+(* the first _RESERVED_ block: the original run defines its ids, the merged run the ids of all blocks *)
+Lemma RInv_first st ids pend :
+  RInv (rnames (ids ++ pend)) (apply_delta st (DMsg (rmts ids) (rdefs ids)))
+       (apply_delta st (DMsg (rmts (ids ++ pend)) (rdefs (ids ++ pend)))) pend.
+Proof.
+  constructor; simpl; auto.
+  - intros t Ht. rewrite find_def_app_fresh by (rewrite names_rdefs; exact Ht).
+    symmetry. apply find_def_app_fresh. rewrite names_rdefs. intros Hin. apply Ht.
+    unfold rnames in *. rewrite map_app. apply in_or_app. left. exact Hin.
+  - unfold rmts. rewrite map_app, app_assoc. apply Permutation_refl.
+  - unfold rdefs. rewrite map_app, app_assoc. apply Permutation_refl.
+  - rewrite !filter_app, !user_rmts. reflexivity.
+  - rewrite !filter_app, !user_rdefs. reflexivity.
+Qed.
+
+(* field types / reuse targets are looked up the same way in two message tables that agree on them *)
+Lemma resolve_fields_msgs_eq cs al ss ms ms' l :
+  Forall (fun t => find_def t ms' = find_def t ms) (map fd_type l) ->
+  resolve_fields cs al ss ms' l = resolve_fields cs al ss ms l.
+Proof.
+  induction l as [|d r IH]; simpl; intros H; auto. inversion H as [|? ? H1 H2]; subst.
+  unfold resolve_field, resolve_ftype. rewrite H1. rewrite (IH H2). reflexivity.
+Qed.
+
+Lemma resolve_body_msgs_eq cs al ss ms ms' b :
+  Forall (fun t => find_def t ms' = find_def t ms) (body_type_names b) ->
+  resolve_body cs al ss ms' b = resolve_body cs al ss ms b.
+Proof.
+  destruct b as [l|n]; simpl; intros H.
+  - apply resolve_fields_msgs_eq. exact H.
+  - inversion H; subst. rewrite H2. reflexivity.
+Qed.
+
+Lemma find_def_none_existsb n l : existsb (String.eqb n) (map pd_name l) = match find_def n l with Some _ => true | None => false end.
+Proof.
+  induction l as [|x r IH]; simpl; auto. rewrite (String.eqb_sym n (pd_name x)).
+  destruct (String.eqb (pd_name x) n); simpl; auto.
+Qed.
+
+Lemma used_split st n :
+  used st n = existsb (String.eqb n) (map fst (ps_consts st) ++ map fst (ps_strs st) ++ map pa_name (ps_aliases st)
+                                      ++ map pd_name (ps_structs st))
+              || existsb (String.eqb n) (map pd_name (ps_msgs st)).
+Proof.
+  unfold used, all_names, type_names. rewrite !existsb_app. rewrite !orb_assoc. reflexivity.
+Qed.
+
+Lemma used_rinv RN so sm pend n : RInv RN so sm pend -> ~ In n RN -> used sm n = used so n.
+Proof.
+  intros [H1 H2 H3 H4 H5 H6 H7 _ _ _ _] Hn. rewrite !used_split. rewrite H1, H2, H3, H6.
+  rewrite !find_def_none_existsb. rewrite (H7 n Hn). reflexivity.
+Qed.
+
+Lemma contrib_msg_rinv ap RN so sm pend n id b :
+  RInv RN so sm pend -> Forall (fun t => ~ In t RN) (match b with Some b' => body_type_names b' | None => [] end) ->
+  contrib ap sm (IMsg n id b) = contrib ap so (IMsg n id b).
+Proof.
+  intros R Hb. destruct b as [b|]; [|reflexivity]. simpl.
+  assert (E : define ap sm b = define ap so b).
+  { apply define_eq. destruct R as [H1 H2 H3 H4 H5 H6 H7 _ _ _ _]. rewrite <- H1, <- H3, <- H6.
+    apply resolve_body_msgs_eq. eapply Forall_impl; [|exact Hb]. intros t Ht. apply H7. exact Ht. }
+  rewrite E. reflexivity.
+Qed.
+
+Lemma step_msg_rinv ap RN so sm pend n id b so' :
+  RInv RN so sm pend -> ~ In n RN ->
+  Forall (fun t => ~ In t RN) (match b with Some b' => body_type_names b' | None => [] end) ->
+  step ap so (IMsg n id b) = POk so' ->
+  exists sm', step ap sm (IMsg n id b) = POk sm' /\ RInv RN so' sm' pend.
+Proof.
+  intros R Hn Hb Hs. destruct (step_inv _ _ _ _ Hs) as (U & d & C & E). subst so'. simpl in U.
+  pose proof (contrib_rank _ _ _ _ C) as Rk. simpl in Rk.
+  destruct d as [c|s|a|h|m|d|ids ds]; simpl in Rk; try discriminate.
+  exists (apply_delta sm (DMsg ids ds)). split.
+  - apply step_intro.
+    + simpl. rewrite (used_rinv _ _ _ _ _ R Hn). exact U.
+    + rewrite (contrib_msg_rinv ap _ _ _ _ n id b R Hb). exact C.
+  - apply RInv_add. exact R.
+Qed.
+
+Lemma step_reserved ap st ids : step ap st (IReserved ids) = POk (apply_delta st (DMsg (rmts ids) (rdefs ids))).
+Proof. reflexivity. Qed.
+
+Definition rank6 (i : item) : Prop := rank i = 6%nat.
+
+Lemma legal_msg_parts A n id b : legal_item (IMsg n id b) = true ->
+  ~ In n (rnames A) /\ Forall (fun t => ~ In t (rnames A)) (match b with Some b' => body_type_names b' | None => [] end).
+Proof.
+  unfold legal_item. intros H. destruct b as [b|]; simpl in H; apply andb_true_iff in H; destruct H as [H1 H2].
+  - split; [apply letter_not_reserved; exact H1|]. apply Forall_forall. intros t Ht. apply letter_not_reserved.
+    exact (proj1 (forallb_forall _ _) H2 t Ht).
+  - split; [apply letter_not_reserved; exact H1|constructor].
+Qed.
+
+(* after the first block *)
+Lemma hoist_seen ap A m : forall so sm s,
+  Forall rank6 m -> legal_names m = true -> incl (all_reserved m) A ->
+  RInv (rnames A) so sm (all_reserved m) -> run ap m so = POk s ->
+  exists s', run ap (merge_reserved m A true) sm = POk s' /\ RInv (rnames A) s s' [].
+Proof.
+  induction m as [|i r IH]; intros so sm s Hr Hl Hi R H.
+  - simpl in H. inversion H; subst. exists sm. split; [reflexivity|exact R].
+  - inversion Hr as [|? ? Hr1 Hr2]; subst. simpl in Hl. apply andb_true_iff in Hl. destruct Hl as [Hl1 Hl2].
+    simpl in H. destruct (step ap so i) as [so1|k|k] eqn:Es; try discriminate.
+    destruct i as [n e|n v|n t|n v|n v|n b|n id b|ids]; unfold rank6 in Hr1; simpl in Hr1; try discriminate.
+    + (* a message: both runs take the same step *)
+      simpl in Hi, R. destruct (legal_msg_parts A _ _ _ Hl1) as [Hn Hb].
+      destruct (step_msg_rinv _ _ _ _ _ _ _ _ _ R Hn Hb Es) as (sm1 & Em & R1).
+      simpl. rewrite Em. apply (IH so1 sm1 s Hr2 Hl2 Hi R1 H).
+    + (* a later _RESERVED_ block: dropped from the merged list *)
+      simpl in Hi, R. rewrite step_reserved in Es. injection Es as Es. subst so1.
+      simpl. refine (IH _ sm s Hr2 Hl2 _ _ H).
+      * intros x Hx. apply Hi. apply in_or_app. right. exact Hx.
+      * apply RInv_reserved; [|exact R]. intros x Hx. apply Hi. apply in_or_app. left. exact Hx.
+Qed.
+
+(* up to and including the first block *)
+Lemma hoist_unseen ap A m : forall st s,
+  Forall rank6 m -> legal_names m = true -> all_reserved m = A -> run ap m st = POk s ->
+  exists s', run ap (merge_reserved m A false) st = POk s' /\ RInv (rnames A) s s' [].
+Proof.
+  induction m as [|i r IH]; intros st s Hr Hl HA H.
+  - simpl in H. inversion H; subst. exists s. split; [reflexivity|apply RInv_refl].
+  - inversion Hr as [|? ? Hr1 Hr2]; subst. simpl in Hl. apply andb_true_iff in Hl. destruct Hl as [Hl1 Hl2].
+    simpl in H. destruct (step ap st i) as [s1|k|k] eqn:Es; try discriminate.
+    destruct i as [n e|n v|n t|n v|n v|n b|n id b|ids]; unfold rank6 in Hr1; simpl in Hr1; try discriminate.
+    + simpl. rewrite Es. apply (IH s1 s Hr2 Hl2); [reflexivity|exact H].
+    + simpl. rewrite step_reserved in Es. injection Es as Es. subst s1.
+      refine (hoist_seen ap _ r _ _ s Hr2 Hl2 _ _ H).
+      * simpl. intros x Hx. apply in_or_app. right. exact Hx.
+      * simpl. apply RInv_first.
+Qed.
+
+(* ------------------------------------------------------------------ the merge and the section sort commute *)
+Lemma sec_merge_other r l A seen : r <> 6%nat -> sec r (merge_reserved l A seen) = sec r l.
+Proof.
+  intros Hr. revert seen. induction l as [|i t IH]; intros seen; [reflexivity|].
+  destruct i as [n e|n v|n t0|n v|n v|n b|n id b|ids]; simpl merge_reserved;
+    try (rewrite !sec_cons; rewrite IH; reflexivity).
+  destruct seen; rewrite !sec_cons; simpl rank; destruct (Nat.eqb 6 r) eqn:E;
+    try (apply Nat.eqb_eq in E; congruence); apply IH.
+Qed.
+
+Lemma sec_merge_6 l A seen : sec 6 (merge_reserved l A seen) = merge_reserved (sec 6 l) A seen.
+Proof.
+  revert seen. induction l as [|i t IH]; intros seen; [reflexivity|].
+  destruct i as [n e|n v|n t0|n v|n v|n b|n id b|ids]; simpl merge_reserved; rewrite ?sec_cons; simpl; rewrite ?IH; try reflexivity.
+  destruct seen; rewrite ?sec_cons; simpl; rewrite ?IH; reflexivity.
+Qed.
+
+Lemma all_reserved_sec6 l : all_reserved (sec 6 l) = all_reserved l.
+Proof.
+  induction l as [|i t IH]; [reflexivity|].
+  destruct i as [n e|n v|n t0|n v|n v|n b|n id b|ids]; rewrite sec_cons; simpl; rewrite ?IH; reflexivity.
+Qed.
+
+Definition ranks_lt6 : list nat := [0; 1; 2; 3; 4; 5]%nat.
+Lemma by_section_split l : by_section l = bsec ranks_lt6 l ++ sec 6 l.
+Proof. unfold by_section, bsec, ranks, ranks_lt6. simpl. rewrite !app_nil_r. rewrite <- !app_assoc. reflexivity. Qed.
+
+Lemma bsec_merge_lt6 l A seen : bsec ranks_lt6 (merge_reserved l A seen) = bsec ranks_lt6 l.
+Proof. unfold bsec, ranks_lt6. simpl. rewrite !sec_merge_other by lia. reflexivity. Qed.
+
+Lemma combined_items_split l :
+  combined_items l = bsec ranks_lt6 l ++ merge_reserved (sec 6 l) (all_reserved (sec 6 l)) false.
+Proof.
+  unfold combined_items. rewrite by_section_split, bsec_merge_lt6, sec_merge_6, all_reserved_sec6. reflexivity.
+Qed.
+
+Lemma legal_names_sec r l : legal_names l = true -> legal_names (sec r l) = true.
+Proof.
+  unfold legal_names, sec. intros H. apply forallb_forall. intros x Hx. apply filter_In in Hx.
+  exact (proj1 (forallb_forall _ _) H x (proj1 Hx)).
 Qed.
 
 (* ------------------------------------------------------------------ the round trip *)
 Theorem combined_roundtrip ap l st :
+  backward_uses l = true -> legal_names l = true ->
+  parse_items ap l = POk st -> exists st', reparse_combined ap l = POk st' /\ same_defs st st'.
+Proof.
+  intros Hb Hl H. unfold reparse_combined, parse_items in *.
+  apply (run_isort _ _ _ _ Hb) in H. rewrite <- by_section_isort in H.
+  rewrite by_section_split in H. rewrite run_app in H.
+  destruct (run ap (bsec ranks_lt6 l) ps_empty) as [sP|k|k] eqn:EP; try discriminate.
+  destruct (hoist_unseen ap (all_reserved (sec 6 l)) (sec 6 l) sP st) as (st' & E & R); auto.
+  - eapply Forall_impl; [|apply sec_rank]. intros x Hx. exact Hx.
+  - apply legal_names_sec. exact Hl.
+  - exists st'. split; [|eapply RInv_same; exact R].
+    rewrite combined_items_split, run_app, EP. exact E.
+Qed.
+
+(* at most one _RESERVED_ block in the closure: the merge keeps every item, and the state is the same one *)
+Lemma merge_reserved_seen l A : count_reserved l = 0%nat -> merge_reserved l A true = l.
+Proof.
+  induction l as [|i r IH]; simpl; auto. unfold count_reserved in *. simpl.
+  destruct (is_reserved i); simpl; [discriminate|]. intros H. rewrite IH; auto.
+Qed.
+Lemma all_reserved_cons i r : all_reserved (i :: r) = reserved_ids_of i ++ all_reserved r.
+Proof. reflexivity. Qed.
+Lemma all_reserved_none l : count_reserved l = 0%nat -> all_reserved l = [].
+Proof.
+  induction l as [|i r IH]; [reflexivity|]. rewrite all_reserved_cons. unfold count_reserved in *.
+  destruct i; simpl; try discriminate; intros H; apply IH; exact H.
+Qed.
+Lemma merge_reserved_one_gen l : forall A, all_reserved l = A -> (count_reserved l <= 1)%nat -> merge_reserved l A false = l.
+Proof.
+  induction l as [|i r IH]; intros A HA H; [reflexivity|].
+  unfold count_reserved in H. simpl in H. rewrite all_reserved_cons in HA. destruct (is_reserved i) eqn:E; simpl in H.
+  - assert (Hr : count_reserved r = 0%nat) by (unfold count_reserved; lia).
+    destruct i; try discriminate. simpl in HA. rewrite (all_reserved_none _ Hr), app_nil_r in HA. subst A.
+    simpl. rewrite (merge_reserved_seen _ _ Hr). reflexivity.
+  - simpl. rewrite E. rewrite (IH A); auto.
+    destruct i; simpl in HA, E; try discriminate; exact HA.
+Qed.
+Lemma merge_reserved_one l : (count_reserved l <= 1)%nat -> merge_reserved l (all_reserved l) false = l.
+Proof. apply merge_reserved_one_gen. reflexivity. Qed.
+
+Theorem combined_roundtrip_exact ap l st :
   backward_uses l = true -> (count_reserved l <= 1)%nat ->
   parse_items ap l = POk st -> reparse_combined ap l = POk st.
 Proof.
